@@ -1544,6 +1544,14 @@ def r17_8(ctx):
     ctx.need(cand, "the segment-acceptability flag in tcp::Socket::process")
     L = max(cand, key=lambda l: len(cand[l]))
     sw = [x for x in bool_local_switches(b, L) if x[2] is not None]
+    # the flag may be refined before it is tested (`let ok = ok && ..`): every bool local whose being true still implies a
+    # sequence/window test counts as the acceptability flag
+    G = derived_guard_edges(b, set(guard_edges(F, b, seqwin)), polarity=True, pred=seqwin)
+    for l in range(b.nargs + 1, len(b.locals)):
+        if b.locals[l]['ty'] == 'bool' and l != L:
+            for x in bool_local_switches(b, l):
+                if x[1] is not None and x[2] is not None and x[1] in G and x not in sw:
+                    sw.append(x)
     ctx.need(sw, "test of the acceptability flag")
     notrst = lambda f: (f[0] == 'rel' and f[1] == 'Ne' and any('Control::Rst' in show(x) for x in (f[2], f[3]))) or \
         (f[0] == 'isnot' and f[3] == 'wire::tcp::Control' and 'Rst' in f[2]) or (f[0] == 'is' and f[3] == 'wire::tcp::Control' and f[2] != 'Rst')
@@ -3976,3 +3984,25 @@ def r20_13(ctx):
         else:
             ctx.bad(f"sixlowpan_to_ipv6|uncompressed-{v}-rejected", f"the 6LoWPAN egress sends a {v} header uncompressed behind the IPHC header, but sixlowpan_to_ipv6 rejects that next header "
                     f"(it accepts {sorted(accepted)}): a datagram this stack sends over IEEE 802.15.4 (an MLD report) cannot be decompressed by a receiving interface", body=d)
+
+
+@rule('R09.15', ['C09', 'C06'], floor=1, clause='an ICMPv4 error is valid with the quote RFC 792 prescribes - the IP header and the first 64 bits of the datagram: Icmpv4Repr::parse validates the quoted header only and does not run Ipv4Packet::new_checked / check_len (which demand total_len octets) on the quote')
+def r09_15(ctx):
+    F = ctx.F
+    ks = [k for k in F.bodies if re.match(r"wire::icmpv4::Repr::<'a>::parse$", k) or re.match(r"wire::icmpv4::Repr::parse$", k)]
+    ctx.need(ks, "icmpv4::Repr::parse")
+    b = F.bodies[ks[0]]
+    fam = [b] + [F.bodies[n] for n in {b.callee_name(x[1]) for x in b.calls()} if n in F.bodies and n.startswith('wire::icmpv4::')]
+    quoted = False
+    for fb in fam:
+        for x in fb.calls():
+            cn = fb.callee_name(x[1]) or ''
+            if re.search(r'wire::ipv4::Packet::<.*>::(new_checked|check_len)$', cn):
+                ctx.bad("icmpv4::Repr::parse|complete-quote-demanded", "icmpv4::Repr::parse runs Ipv4Packet::new_checked / check_len on the quoted datagram, which demands all total_len octets of it: "
+                        "a Destination Unreachable / Time Exceeded quoting the header plus 8 octets of a longer datagram - what RFC 792 prescribes and what this stack itself sends for "
+                        "datagrams beyond 548 octets - is rejected, so no ICMP socket ever receives it", body=fb, bb=x[0])
+                return
+            if re.search(r'wire::ipv4::Packet::<.*>::new_unchecked$', cn):
+                quoted = True
+    ctx.need(quoted, "a view of the quoted IPv4 header in icmpv4::Repr::parse")
+    ctx.ok(('icmpv4::parse', 'header-only quote'), sample=dict(fn='icmpv4::Repr::parse', validates='the quoted IP header only'))
